@@ -310,6 +310,68 @@ example :
     (calls out.events).length = 5 ∧ out.cbAcquires = 1 ∧ out.cbRecords = [true] := by
   decide
 
+/-! ### audit round: the breaker clause on the real wrapper; the two back-off bounds are one; more of the judge's spec -/
+
+/-- **One outcome per client request, on the composed handler** — no longer true by construction: the
+breaker layer of `runHF … (.cb inner)` (what `handleIR` runs, for `inner = retry p base` or `base`) *is*
+C08's `circuitBreakerWrapper.Wrap` model `CircuitBreaker.wrap` (tied to the regenerated `wrapIR` by C08's
+`wrap_regenerated_from_source`): one acquire; refused ⇒ no record, the inner handler (all its retries) does
+not run; admitted ⇒ the whole retry loop runs once inside and exactly one flag is recorded. -/
+theorem cb_one_record_is_breaker_wrap (fc : List Nat) (env : Env) (permitted : Bool) (p : RetryPolicy) :
+    let inner := HF.retry p HF.base
+    let I := runHF fc env permitted inner
+    let R := runHF fc env permitted (.cb inner)
+    let W := cbView (CircuitBreaker.wrap permitted (outcomeOf I.err)).1
+    R.acq = W.1 ∧ R.recs = W.2.1 ∧ W.1 = 1 ∧ W.2.1.length = (if permitted then 1 else 0) ∧
+    (calls R.events).length = (if permitted then (calls I.events).length else 0) := by
+  have h := runHF_cb_is_wrap fc env permitted (HF.retry p HF.base)
+  simp only at h ⊢
+  obtain ⟨h1, h2, h3, _, _⟩ := h
+  have hI : (runHF fc env permitted (HF.retry p HF.base)).acq = 0 ∧
+      (runHF fc env permitted (HF.retry p HF.base)).recs = [] := by simp [runHF]
+  cases permitted with
+  | false => simp [runHF, cbView, CircuitBreaker.wrap, calls_nil]
+  | true =>
+    rw [h1, h2, hI.1, hI.2, h3]
+    generalize (runHF fc env true (HF.retry p HF.base)) = I
+    cases hb : I.err.isSome <;> simp [cbView, CircuitBreaker.wrap, outcomeOf, hb]
+
+/-- … and `handle`'s own counters are those of that composed handler (`handle_regenerated_from_source`) -/
+theorem handle_counts_are_runHF (pool : Pool) (permitted : Bool) (env : Env) (p : RetryPolicy)
+    (hr : pool.retry = some p) (hcb : pool.hasCB = true) :
+    (handle pool false permitted env).cbAcquires =
+        (runHF pool.failureCodes env permitted (.cb (.retry p .base))).acq ∧
+    (handle pool false permitted env).cbRecords =
+        (runHF pool.failureCodes env permitted (.cb (.retry p .base))).recs := by
+  obtain ⟨fc, retry, hasCB⟩ := pool
+  simp only at hr hcb
+  subst hr hcb
+  cases permitted <;> simp [handle, inner, runHF, finish_acq, finish_recs]
+
+/-- **One back-off, two notations**: the judge's integer lower bound `backoffLower` (model of the
+property theorems, fractions of naturals) is the floor of the exact rational bound `base_k·(1−f)` of
+`backoff_exact` (the regenerated `wrapIR` at the rational instance) — for a well-formed factor
+(`0 < fDen`, `fNum ≤ fDen`; the judge maps `fDen = 0` to `0/1`). -/
+theorem backoffLower_is_floor_of_exact (p : RetryPolicy) (k : Nat) (hd : 0 < p.fDen) (hf : p.fNum ≤ p.fDen) :
+    (backoffLower p k : Int) = (baseQ p k * (1 - (p.fNum : Rat) / (p.fDen : Rat))).floor :=
+  backoffLower_eq_floor p k hd hf
+
+/-- `fDen = 0` is outside the theorems' reading of `f` (then `sleepDen = 0` and `backoffLower = 0`): the
+guard is explicit here -/
+example : backoffLower ⟨3, 1000, false, 1, 0⟩ 0 = 0 ∧ backoffLower ⟨3, 1000, false, 1, 2⟩ 0 = 500 := by decide
+
+/-- the judge's `cancelOK` accepts the model: if `ctx.Done()` wins the `select` after attempt `j`, at most
+`j + 1` calls are made -/
+theorem cancelOK_accepts_model (pool : Pool) (stream permitted : Bool) (env : Env) (j : Nat)
+    (hd : env.done j = true) :
+    cancelOK (some j) (callsOf pool stream permitted env).length = true := by
+  obtain ⟨m, _, hc⟩ := attempts_le_max pool stream permitted env
+  have hn := cancel_stops pool stream permitted env j hd
+  rw [hc] at hn ⊢
+  simp only [cancelOK, List.length_range', decide_eq_true_eq]
+  by_contra hlt
+  exact hn (List.mem_range'_1.mpr ⟨by omega, by omega⟩)
+
 /-! ### the judge's executable spec accepts the model's own behaviour -/
 
 theorem spec_accepts_model (pool : Pool) (stream permitted : Bool) (env : Env)
